@@ -53,8 +53,8 @@ async function check (leaf, resps, ctx) {
   }
   const relax = r.parseIn.ast ? X.hasMultiSubstTemplate(norm(r.parseIn.ast)) : false
   let envs = X.envVariants(code, ctx.tier)
-  // quick tier: the context families (B, G, M) take the 7 most discriminating environments, A and C all of them
-  if (ctx.tier !== 'thorough' && leaf.fam !== 'A' && leaf.fam !== 'C') envs = envs.slice(0, 7)
+  // quick tier: the context families (B, G, M) take the 5 most discriminating environments, A and C all of them
+  if (ctx.tier !== 'thorough' && leaf.fam !== 'A' && leaf.fam !== 'C') envs = envs.slice(0, 5)
   res.nontrivial = true
   let n = 0
   for (const spec of envs) {
